@@ -2,6 +2,7 @@
 import z3
 
 from .. import sym
+from ..explore import region_func
 from ..spec import pyimport
 from ..symstr import SymStr
 from ..sym import B, mkb
@@ -108,6 +109,39 @@ def h_pair(env):
         env.check("alias-is-identifier", alias.isidentifier() if hasattr(alias, "isidentifier") else True)
 
 
+def _relation(cur, pkg):
+    """(kind, alias) the way compile/importing.py names the import of package pkg from package cur (independent re-computation for regions)"""
+    from betterproto.casing import safe_snake_case
+
+    n = 0
+    while n < min(len(cur), len(pkg)) and B(_seq(cur[n], pkg[n])):
+        n += 1
+    if n == len(cur) and n == len(pkg):
+        return "same", None
+    if n == len(cur):
+        rest = pkg[n:]
+        return "descendant", (rest[0] if len(rest) == 1 else join(rest, "_"))
+    if n == len(pkg):
+        up = len(cur) - len(pkg)
+        return "ancestor", ("_" + "_" * up + pkg[-1] + "__") if pkg else None
+    up = len(cur) - n
+    return "cousin", "_" * up + safe_snake_case(join(pkg[n:], ".")) + "__"
+
+
+@region_func
+def c13_alias_clash(env):
+    """two different packages imported into one module under the same alias: an ancestor alias (_<dots>name__) coinciding with a cousin alias
+    (<dots>snake(path)__), or two descendant / cousin paths that differ only in '.' vs '_' (b.c and b_c both become b_c)"""
+    cur, a, b = env.aux["cur"], env.aux["a"], env.aux["b"]
+    ka, aa = _relation(cur, a)
+    kb, ab = _relation(cur, b)
+    if aa is None or ab is None:
+        return False
+    if B(list_eq(a, b)):
+        return False
+    return _seq(aa, ab)
+
+
 def h_two(env):
     """two references from the same module: both still resolve when all import lines coexist (aliases do not clash)"""
     from betterproto.compile import naming
@@ -115,6 +149,7 @@ def h_two(env):
     current = package(env, "cur", env.params["depth"], env.params["len"])
     a = package(env, "a", env.params["depth"], env.params["len"])
     b = package(env, "b", env.params["depth"], env.params["len"])
+    env.aux.update(cur=current, a=a, b=b)
     imports = set()
     ra = reference(env, current, a, "Msg", imports)
     rb = reference(env, current, b, "Other", imports)
